@@ -65,10 +65,37 @@ def generate_long(rng, run_seed):
     return {"profile": {"candidates": names, "ballots": ballots}, "objs": [{"rule": rule, "kw": kw}], "ops": ops, "policies": [{"kind": "asc"}], "long": True}
 
 
+def generate_twin_ties(rng, run_seed):
+    """two STV-family elections over the same candidates whose later-round elimination tie on the same set is resolved
+    (deterministically, by initial first-place tallies) in opposite ways; the first is queried after the second was built"""
+    names = rng.sample(G.NAME_FAMILIES[rng.choice(["plain", "disorder", "nested"])][:6], 4)
+    W, X, Y, Z = names
+    a = Fraction(rng.randint(1, 4))
+    e = Fraction(1, rng.choice([3, 10, 10**20]))
+    bs = [([[W]], 3 * a / 2), ([[X]] + ([[W]] if rng.random() < 0.5 else []), a), ([[Y]], a + e), ([[Z], [X]], e)]
+    rng.shuffle(bs)
+    cands = list(names)
+    rng.shuffle(cands)
+    rule = rng.choice(["IRV", "STV", "SequentialRCV"])
+    kw = {"quota": "droop", "tiebreak": None}
+    if rule != "IRV":
+        kw.update(m=1, simultaneous=True)
+    if rule == "STV":
+        kw["transfer"] = "fractional"
+    ops = []
+    for _ in range(rng.randint(2, 5)):
+        ops.append({"obj": rng.choice([0, 0, 1]), "op": rng.choice(REPLAYING), "q": 4 * rng.randrange(0, 16) + rng.choice([0, 1, 2]), "default": rng.random() < 0.3})
+    return {"profile": {"candidates": cands, "ballots": [{"r": r, "w": canon.fs(w)} for r, w in bs]},
+            "objs": [{"rule": rule, "kw": dict(kw)}, {"rule": rule, "kw": dict(kw), "alt": True}], "swap": [X, Y], "ops": ops, "policies": [{"kind": "asc"}]}
+
+
 def generate(run_seed, tier):
     rng = stream(run_seed, "gen")
-    if rng.random() < 0.03:
+    u = rng.random()
+    if u < 0.03:
         return generate_long(rng, run_seed)
+    if u < 0.06:
+        return generate_twin_ties(rng, run_seed)
     fam = G.wchoice(rng, [("ranked", 8), ("score", 2)])
     nobj = G.wchoice(rng, [(1, 5), (2, 3), (3, 1)])
     objs = []
@@ -100,6 +127,12 @@ def generate(run_seed, tier):
             if rng.random() < 0.6 and "tiebreak" in kw:
                 kw["tiebreak"] = rng.choice(["borda", "first_place", "random"]) if r not in ("PluralityVeto",) else "random"
             objs.append({"rule": r, "kw": kw})
+    swap = None
+    if len(objs) >= 2 and rng.random() < 0.5 and len(jp["candidates"]) >= 2:
+        swap = rng.sample(jp["candidates"], 2)
+        for ob in objs[1:]:
+            if rng.random() < 0.6:
+                ob["alt"] = True
     nops = rng.randint(1, 12)
     ops = []
     for _ in range(nops):
@@ -112,7 +145,10 @@ def generate(run_seed, tier):
             # order-sensitive pairs: a replaying query immediately followed by one for the first / the last round
             ops.append({"obj": ops[-1]["obj"], "op": rng.choice(REPLAYING), "q": 0, "default": False, "fixed": rng.choice(["first", "first", "last"])})
     pol = rng.choice(common.gen_policies(rng, run_seed))
-    return {"profile": jp, "objs": objs, "ops": ops[:14], "policies": [pol]}
+    case = {"profile": jp, "objs": objs, "ops": ops[:14], "policies": [pol]}
+    if swap:
+        case["swap"] = swap
+    return case
 
 
 def shrink_steps(case):
@@ -204,6 +240,17 @@ def build_objects(case, pol):
     import votekit.elections as E
 
     p = canon.build_profile(case["profile"])
+    # objects marked "alt" are built from a second profile: the same ballots with two candidates' names exchanged.  Same
+    # candidate set, same tied sets -- resolved the other way round.  Anything shared between election objects (class-level
+    # caches, module state) then shows when the first object is queried afterwards.
+    p_alt = None
+    if any(ob.get("alt") for ob in case["objs"]) and len(case["profile"]["candidates"]) >= 2:
+        a, b = case["profile"]["candidates"][:2] if "swap" not in case else case["swap"]
+        sw = {a: b, b: a}
+        jp2 = {"candidates": list(case["profile"]["candidates"]),
+               "ballots": [dict(bl, r=None if bl.get("r") is None else [[sw.get(c, c) for c in g] for g in bl["r"]],
+                                **({"s": {sw.get(c, c): v for c, v in bl["s"].items()}} if bl.get("s") else {})) for bl in case["profile"]["ballots"]]}
+        p_alt = canon.build_profile(jp2)
     out = []
     seam = seams.ACTIVE
     for ob in case["objs"]:
@@ -214,7 +261,7 @@ def build_objects(case, pol):
             if t is not None:
                 kw["transfer"] = {"fractional": E.fractional_transfer, "random": E.random_transfer}[t]
         try:
-            e = getattr(E, ob["rule"])(p, **kw)
+            e = getattr(E, ob["rule"])(p_alt if (ob.get("alt") and p_alt is not None) else p, **kw)
             out.append((e, None, seam.nontrivial - before))
         except seams.WallAlarm:
             raise
